@@ -51,6 +51,10 @@ Section InRange.
     eapply pshuffle_support; eauto.
   Qed.
 
+  Theorem src_choice_support values ws ops i :
+    Forall (from_values values) (run R r_seed (src_pchoice R r_unit r_below values ws) i ops).
+  Proof. rewrite src_pchoice_run. apply choice_support. Qed.
+
   Theorem src_skip_only_rests input play s n j r :
     nth_error (run R r_seed (src_skip R r_unit input play) (fresh R r_seed (src_skip R r_unit input play) s) (repeat Next n)) j = Some r ->
     match nth_error input j with
